@@ -1045,8 +1045,7 @@ class StmtMixin(ContractMixin):
             return HDict(cur.kty, cur.binder, newdom, self.binop(st, ast.Add(), oldv, contrib), cur.default, cur.vty)
         # set
         body = inst(t_and(ef.guard, resid))
-        if as_list is not None:
-            raise Unsupported("summarised assignment to list cells")
+
         val = self.force(st, ef.value)
         if isinstance(val, VRef):
             val = self.resolve(st, val)
@@ -1077,6 +1076,8 @@ class StmtMixin(ContractMixin):
         else:
             hit = z3.simplify(body)
         newval = nv if cur.val is None else self.v_ite(hit, nv, cur.val)
+        if as_list is not None:
+            return HListC(as_list.length, as_list.binder, newval, as_list.elem_ty)
         return HDict(cur.kty, cur.binder, z3.simplify(t_or(cur.dom, hit)), newval, cur.default, cur.vty)
 
     def force_v(self, st, v):
